@@ -95,6 +95,9 @@ def st_case(draw):
             }
         )
     case["responses"] = resp
+    # receiver side: the remote node may have started already, so all responses can reach the controller before the receive
+    # instruction has run
+    case["early"] = role == "recv" and draw(st.integers(0, 2)) == 0
     if draw(st.integers(0, 2)) == 0:
         # an earlier, completed request on the same socket and connection (its handles must keep reading its own responses)
         n1 = draw(st.integers(1, 2))
@@ -190,6 +193,8 @@ def check(case) -> Dict[str, Any]:
             f["bell_state"] = BellState(r["bell_state"])
         fields.append(f)
     stack.expect(role, tp, number, fields, remote_node_id=remote_id, purpose_id=case["socket_id"])
+    if case.get("early") and role == "recv":
+        stack.deliver_eagerly()
     try:
         conn.flush()
     except sim.WouldBlock:
@@ -342,7 +347,7 @@ def shard(ctx: Ctx) -> None:
             stt.evaluations += 1
             return
         nt = case["number"] >= 2 or bool(case["kw"])
-        labels = [case["api"], f"pairs:{case['number']}", case["hardware"]] + [f"kw:{k}" for k in case["kw"]] + (["deprecated-alias"] if case.get("alias") else []) + (["after:" + case["before"]["api"]] if case.get("before") else [])
+        labels = [case["api"], f"pairs:{case['number']}", case["hardware"]] + [f"kw:{k}" for k in case["kw"]] + (["deprecated-alias"] if case.get("alias") else []) + (["after:" + case["before"]["api"]] if case.get("before") else []) + (["responses-before-the-receive-instruction"] if case.get("early") else [])
         stt.case({k: v for k, v in case.items()}, nt, labels, sample={k: case[k] for k in ("role", "api", "number", "kw", "hardware")})
 
     ctx.search(st_case(), body, n, name="c11")
